@@ -1044,4 +1044,10 @@ def clientReturns (K : Consts) (env : Env) (keq : Value → Value → Bool) (r :
         | _ => .bad)) .batch)
   | .unknown => .decodeError
 
+/-- the response direction as one function: what the client call returns when the resource replies `reply` -/
+def callReturns (K : Consts) (env : Env) (keq : Value → Value → Bool) (r : ResSpec) (c : Call) (reply : Reply) : Returned :=
+  match serverRespond K env r reply with
+  | Option.none => .unmodelled "server-cannot-marshal"
+  | some resp => clientReturns K env keq r c resp
+
 end Restli.E2E
